@@ -271,7 +271,7 @@ func runAll(frs []*FuncResult, timeout, jobs int, keepDir string) []*Verdict {
 					v.Candidate = true
 				}
 			}
-			if keepDir != "" && ((v.Status != "unsat" && !j.o.Canary && !j.o.Smoke) || ((j.o.Canary || j.o.Smoke) && v.Status == "unsat")) {
+			if keepDir != "" && (os.Getenv("VCGO_KEEPALL") != "" || (v.Status != "unsat" && !j.o.Canary && !j.o.Smoke) || ((j.o.Canary || j.o.Smoke) && v.Status == "unsat")) {
 				name := strings.NewReplacer("/", "_", ":", "_", "#", "_", " ", "_", "*", "_", "[", "_", "]", "_", "(", "_", ")", "_").Replace(j.o.Name)
 				if len(name) > 150 {
 					name = name[:150]
